@@ -50,7 +50,15 @@ def _job(job):
             rec.attach(sampler)
         rec, s, tr = drivers.record_run(job["conf"], n_total=job.get("n_total", 32), seed=job["seed"], label=job.get("label", ""),
                                         posterior_flags=job.get("flags"), manual_iters=job.get("manual_iters", 0), rec=rec, sampler=sampler)
-        return [tr] if tr is not None else []
+        out = [tr] if tr is not None else []
+        if job.get("rerun") and tr is not None and not any(e["ev"] == "Raised" for e in tr["events"]):
+            # run(n_total') called AGAIN on the same sampler object (PSRun!RunAgain): its own trace, same recorder
+            rec, s, tr2 = drivers.record_run(job["conf"], n_total=job["rerun"], seed=job["seed"] + 7, label=job.get("label", "") + "+rerun",
+                                             posterior_flags=job.get("flags"), rec=rec, sampler=s)
+            if tr2 is not None:
+                tr2["meta"]["rerun"] = True
+                out.append(tr2)
+        return out
     raise ValueError(kind)
 
 
